@@ -5,6 +5,7 @@ import pickle
 
 import betterproto
 import bpgen
+import heapcopy
 import wirecases as W
 import wiresplit as WS
 from common import is_err
@@ -247,9 +248,15 @@ def run(chk, drv):
                          "lazily defaulted nested messages, bytes, len, ==, bool, repr, to_dict, to_json, to_pydict, is_set, which_one_of), then copy / deepcopy / pickle; every mutable "
                          "path of a deep / unpickled copy is mutated and the original re-checked. non-trivial = message with ≥ 1 set field; distinct by (schema, value, observer sequence)")
     nb = 160 if quick else 800
+    heap_every, heap_p = (2, 0.0) if quick else (1, 1.0)
+    chk.extra["rule_heap"] = ("stage heap: the same messages with ALIASED sub-objects (one sub-message twice in a list, under two map keys, in two fields); "
+                              "copy / deepcopy / pickle; identity of every message / list / dict along all paths (`is`), random mutations through one side; "
+                              "compared with the heap model (HEAPCOPY) and with 'the other side is untouched'")
     for bi in range(nb):
         b = W.Batch(rng, "p%d" % bi, 8)
         W.count_features(chk, b)
+        if bi % heap_every == 0:
+            heapcopy.stage_rich(chk, drv, 4 if quick else 8)
         if drv:
             assert drv.ask1(b.schema_line()) == "ok"
         for v in b.values:
@@ -273,6 +280,9 @@ def run(chk, drv):
                 chk.count("observer_" + n)
             chk.case(b.schema_line() + bpgen.term(v) + how + ",".join(names), not W.is_trivial(v), {"value": bpgen.term(v), "how": how, "observers": names})
             oracle(chk, inp, m, b.schema, ci, b.classes, rng, names)
+            # stage "heap": the SHARING pattern of copy / deepcopy / pickle against the heap model (Props/C14Heap.lean)
+            if bi % heap_every == 0 or not W.is_trivial(v) and rng.random() < heap_p:
+                heapcopy.stage(chk, drv, b, v, {"schema": b.describe(), "value": bpgen.term(v)})
             # correspondence: the same observers and copies through the model, lock-step
             if drv and how in ("ctor", "bytes", "bytes+unknown", "inplace"):
                 m2 = bpgen.to_py(v, b.classes)
@@ -374,6 +384,10 @@ def replay(chk, rp):
     schema = schema_from_desc(inp["schema"])
     classes = bpgen.build_bp(schema)
     v = parse_term(inp["value"].split())[0]
+    if inp.get("stage") == "heap":
+        c = type(chk)(chk.pid, "quick", 0)
+        heapcopy.heap_case(c, None, schema, classes, v, inp["heap_seed"], {"schema": inp["schema"], "value": inp["value"]})
+        return bool(c.oracle_failures)
     ci = v[1]
     m = bpgen.to_py(v, classes)
     if inp.get("data"):
